@@ -1,11 +1,12 @@
 #!/bin/bash
 # Extract the model runner from the compiled Coq development and build the OCaml driver. $1 = output dir
 set -e
-out=${1:-/verif/.work/ocaml}
+root=$(cd "$(dirname "$0")/.." && pwd)
+out=${1:-$root/.work/ocaml}
 mkdir -p "$out"
-cp /verif/ocaml/extract_broker.v /verif/ocaml/driver.ml "$out"/
+cp "$root/ocaml/extract_broker.v" "$root/ocaml/driver.ml" "$out"/
 cd "$out"
-timeout 300 coqc -Q /verif/coq GMQ extract_broker.v >/dev/null
+timeout 300 coqc -Q "$root/coq" GMQ extract_broker.v >/dev/null
 rm -f brokermodel.mli
 timeout 300 ocamlfind ocamlopt -w -a -O2 brokermodel.ml driver.ml -o brokermodel 2>/dev/null || timeout 300 ocamlfind ocamlopt -w -a brokermodel.ml driver.ml -o brokermodel
 echo built "$out/brokermodel"
